@@ -174,8 +174,12 @@ def run_given(stats, strategy, run_case, seed, max_examples, open_sigs, shrink=T
     Hypothesis shrinks it, and the shrunk spec is recorded in stats.failures.
     Shrinking is cut short after `shrink_budget_s` (affects minimality only, never the verdict).
     """
+    import warnings
+
     import hypothesis
     from hypothesis import HealthCheck, Phase, given, settings
+
+    warnings.filterwarnings("ignore", category=hypothesis.errors.HypothesisWarning)
 
     state = {"last": None, "first_fail_t": None}
 
